@@ -5,8 +5,13 @@
 EXTENDS InitCmd, InitCmdDocs
 
 \* the Go packages every world contains (sources in checks/c18.py, cross-checked at start-up)
-MCIfacesOf == [p \in {"root", "sub"} |-> IF p = "root" THEN {"R", "rr"} ELSE {"A", "b", "C", "G", "Z"}]
+\* sub: plain, unexported, methods + embedding, generic, second file, embedding-only (local / imported / instantiated
+\* generic), empty.  Left open: constraint interfaces, aliases, a defined type over a named interface.
+MCIfacesOf == [p \in {"root", "sub"} |-> IF p = "root" THEN {"R", "rr"} ELSE {"A", "b", "C", "G", "Z", "RW", "RC", "GS", "E"}]
+MCMayOf == [p \in {"root", "sub"} |-> IF p = "root" THEN {} ELSE {"Num", "Cmp", "Mixed", "Al", "AlF", "Named"}]
+MCImplExtraOf == [p \in {"root", "sub"} |-> IF p = "root" THEN {} ELSE {"Num", "Cmp", "Mixed"}]
 ASSUME PrintT(<<"IFACES", ToJson(MCIfacesOf)>>)
+ASSUME PrintT(<<"MAY", ToJson(MCMayOf)>>)
 ASSUME PrintT(<<"DOCINIT", ToJson(MCDocInit)>>)
 ASSUME PrintT(<<"DOCTABLE", ToJson(MCDocTable)>>)
 
@@ -29,6 +34,9 @@ AncQ == WA("anc", {"sub"}, {"default", "cwdsub"}, {"absent"}, {"none"}, AncClass
 AncT == WA("anc", {"root", "sub", "w_colonsp"}, {"default", "cwdsub"}, {"absent"}, {"none", "several"}, AncClasses)
 \* --config strings whose lexical cleaning differs from what the kernel resolves, with something present / absent
 \* at both candidate places
+\* file names with other extensions
+ExtQ == W("ext", {"sub", "w_colonsp"}, ExtClasses, {"absent", "valid"})
+ExtT == W("ext", {"root", "sub", "w_colonsp"}, ExtClasses, {"absent", "valid", "empty", "dangling"})
 \* argument shapes other than one package
 ArgsQ == W("args", {"sub", "a_none", "a_two"}, {"default", "rel"}, {"absent", "valid", "empty"})
 SymQ == W("sym", {"sub", "w_colonsp"}, {"linkup", "linkupabs", "linkdir", "dslash"}, {"absent", "valid", "dangling"})
@@ -36,8 +44,8 @@ SymT == W("sym", {"root", "sub", "w_colonsp"}, {"linkup", "linkupabs", "linkdir"
 EnvT == WE("env", {"root", "sub", "w_colonsp"}, {"default", "rel", "abs", "cwdsub", "after"}, {"absent", "dangling"}, AllEnvs)
 
 \* main world: every --config class x every initial content, both Go packages and two odd strings
-Main == W("main", {"root", "sub", "w_colonsp", "w_brace", "a_none", "a_two"}, AllCfgs \ {"linkup", "linkupabs", "linkdir", "dslash"}, AllInits)
-MainCfgs == AllCfgs \ {"linkup", "linkupabs", "linkdir", "dslash"}      \* those four: world "sym"
+MainCfgs == AllCfgs \ ({"linkup", "linkupabs", "linkdir", "dslash"} \cup ExtClasses)      \* those four: world "sym"
+Main == W("main", {"root", "sub", "w_colonsp", "w_brace", "a_none", "a_two"}, MainCfgs, AllInits)
 MainQ == W("main", {"sub", "w_colonsp"}, MainCfgs \ {"reldot", "eqform"}, AllInits)     \* the two spelling variants: thorough only
 
 \* worlds whose module path is itself YAML-significant: the package key `true`, `123`, ... must be written
@@ -61,17 +69,20 @@ Odd12 == {"w_ls", "w_del", "w_pipes", "w_tpl"}
 Odd13 == {"w_leadnl", "w_tabml", "w_lsml", "w_nlonly"}
 Odd14 == {"w_dslash", "w_dotrel", "w_upper", "w_trailsl"}
 \* strings that are words of the config schema, and very long ones
+\* `$`-forms (the referenced variable set and unset when the file is loaded), %VAR%, ~
+Odd17 == {"w_dollar", "w_dollarbrace", "w_dollarset", "w_dollarunset"}
+Odd18 == {"w_dollardollar", "w_dollardigit", "w_pctvar", "w_tildepath"}
 Odd15 == {"w_kall", "w_kpackages", "w_kconfig", "w_ktd"}
 Odd16 == {"w_kinterfaces", "w_kConfig", "w_longsp", "w_xlong"}
 StrWorld(id, s) == W(id, s \cup {"sub"}, {"rel"}, {"absent"})
 StrWorlds == {StrWorld("s1", Odd1), StrWorld("s2", Odd2), StrWorld("s3", Odd3), StrWorld("s4", Odd4),
               StrWorld("s5", Odd5), StrWorld("s6", Odd6), StrWorld("s7", Odd7), StrWorld("s8", Odd8),
-              StrWorld("s9", Odd9), StrWorld("s10", Odd10), StrWorld("s11", Odd11), StrWorld("s12", Odd12), StrWorld("s13", Odd13), StrWorld("s14", Odd14), StrWorld("s15", Odd15), StrWorld("s16", Odd16)}
+              StrWorld("s9", Odd9), StrWorld("s10", Odd10), StrWorld("s11", Odd11), StrWorld("s12", Odd12), StrWorld("s13", Odd13), StrWorld("s14", Odd14), StrWorld("s15", Odd15), StrWorld("s16", Odd16), StrWorld("s17", Odd17), StrWorld("s18", Odd18)}
 
 OddModsQ == {"m_true", "m_null", "m_int", "m_float", "m_yes", "m_date", "m_punct", "m_hex"}
-MCWorldsQuick == {MainQ, EnvQ, AncQ, SymQ, ArgsQ} \cup {OddWorld(m) : m \in OddModsQ} \cup StrWorlds
+MCWorldsQuick == {MainQ, EnvQ, AncQ, SymQ, ArgsQ, ExtQ} \cup {OddWorld(m) : m \in OddModsQ} \cup StrWorlds
 \* thorough: the same alphabets in more --config classes and initial contents
 OddWorldT(m) == WE(m, {"root", "sub"}, {"default", "rel", "abs", "cwdsub", "after"}, {"absent", "valid"}, {"none", "several"})
 StrWorldT(w) == W(w.id, w.pkgs, {"default", "rel", "abs", "subdir", "cwdsub", "eqform"}, {"absent", "valid", "empty", "twin", "link"})
-MCWorldsThorough == {Main, EnvT, AncT, SymT} \cup {OddWorldT(m) : m \in OddMods} \cup {StrWorldT(w) : w \in StrWorlds}
+MCWorldsThorough == {Main, EnvT, AncT, SymT, ExtT} \cup {OddWorldT(m) : m \in OddMods} \cup {StrWorldT(w) : w \in StrWorlds}
 =============================================================================
